@@ -28,4 +28,37 @@ PROPS = {
             "the equation query = spec for every TablesInv state is validated by the correspondence check (model line and specification line per query); the Lean file proves the window law, the filter predicates, exactness of the prefix scan bounds and the selector's no-invention law",
         ],
     },
+    "C07": {
+        "lean_modules": ["DocsModel.Props.C07"],
+        "trusted_base": COMMON_TRUST + ["redb tables are modelled as sorted lists whose range() is the in-order filter by the bounds (element-wise tuple comparison, lexicographic byte strings); redb itself is not verified",],
+        "assumptions": [
+            "the namespace id supplied with a write capability is the public key of its secret (Ed25519 key derivation is outside the model)",
+            "the copy of the capability held by an open replica inside the store actor is covered by C14",
+        ],
+    },
+    "C13": {
+        "lean_modules": ["DocsModel.Props.C13"],
+        "trusted_base": COMMON_TRUST + ["redb tables are modelled as sorted lists whose range() is the in-order filter by the bounds (element-wise tuple comparison, lexicographic byte strings); redb itself is not verified",
+            "postcard is modelled (LEB128 varints of at most 10 bytes, raw 32-byte arrays, trailing bytes ignored)"],
+        "assumptions": [
+            "ids are 32 bytes; timestamps fit in 64 bits",
+            "the equality decode(encode(h, None)) = h for whole head sets is validated by the correspondence check (oracle line hkept); the Lean file proves the item-list round trip, the limit laws and the prefix/maximality law of the size-limited encoder",
+        ],
+    },
+    "C15": {
+        "lean_modules": ["DocsModel.Props.C15"],
+        "trusted_base": COMMON_TRUST + ["redb tables are modelled as sorted lists whose range() is the in-order filter by the bounds (element-wise tuple comparison, lexicographic byte strings); redb itself is not verified",],
+        "assumptions": ["UTF-8 validity of filter bytes is decided outside the model (passed as a flag); ':' is ASCII so str::split_once is a byte-level split"],
+    },
+    "C16": {
+        "lean_modules": ["DocsModel.Props.C16"],
+        "trusted_base": COMMON_TRUST + ["redb tables are modelled as sorted lists whose range() is the in-order filter by the bounds (element-wise tuple comparison, lexicographic byte strings); redb itself is not verified",],
+        "assumptions": ["all namespace and author ids are 32 bytes (Wf32)"],
+    },
+    "C17": {
+        "lean_modules": ["DocsModel.Props.C17"],
+        "trusted_base": COMMON_TRUST + ["redb tables are modelled as sorted lists whose range() is the in-order filter by the bounds (element-wise tuple comparison, lexicographic byte strings); redb itself is not verified",
+            "hook H1 (clock override) supplies the registration times"],
+        "assumptions": ["registration times are strictly increasing (two registrations in the same nanosecond are the excluded point)"],
+    },
 }
